@@ -15,6 +15,7 @@ import msmart.cli as cli
 from msmart.device import AirConditioner as AC
 
 ID = "C20"
+DEBUG_LOGGING_EVERY = 0      # the CLI configures logging itself (cases pass -d instead)
 LEVEL = "exploration"
 RULE = ("a case = one `msmart-ng control <host> [--id --token --key] setting=value...` command line run in-process through msmart.cli.main() "
         "(sys.argv patched, SystemExit caught, event-loop policy handing out the virtual loop bound to a simulated V2 or V3 device at "
@@ -166,9 +167,12 @@ def _run_cli(argv, net):
     import msmart.discover
     msmart.discover.Discover._lock = None
     status, crash = None, None
+    import contextlib
+    dbg = H.debug_logging() if ("-d" in argv or "--debug" in argv) else contextlib.nullcontext()
     try:
         try:
-            cli.main()
+            with dbg:
+                cli.main()
             status = 0
         except SystemExit as e:
             status = e.code if isinstance(e.code, int) else (0 if e.code is None else 1)
@@ -211,6 +215,8 @@ def _mkdev(case):
         argv += ["--id", "77", "--token", token.hex(), "--key", key.hex()]
     if case.get("caps"):
         argv += ["--capabilities"]
+    if case.get("dseed", 0) % 5 == 0:
+        argv += ["-d"]              # debug logging requested on the command line
     return net, dev, model, argv, dict(st), dict(model.props)
 
 
